@@ -5,7 +5,8 @@ from .. import oracles as orc
 
 THEOREMS = ["C03.xfs_srq", "C03.xfs_drq", "C03.xfs_wo", "C03.nonfloat_never_quantized", "C03.dtype_of_bits",
             "C03.quantizeOnly_types", "C03.insertQuant_tensors", "C03.insertQuant_op", "C03.insertQuant_consumers",
-            "C03.insertDequant_tensors", "C03.insertDequant_op", "C03.insertDequant_consumers"]
+            "C03.insertDequant_tensors", "C03.insertDequant_op", "C03.insertDequant_consumers",
+            "C03.addQuant_wired", "C03.addDequant_wired", "C03.quantTensor_typed"]
 
 
 def run(ctx):
@@ -13,7 +14,7 @@ def run(ctx):
                 "modes) through the real pipeline; materialisation and the whole pipeline are compared bit-exactly with the Lean model; the "
                 "output's per-operand dtypes are checked against the mode the real RecipeManager resolves for each op (independent oracle); "
                 "distinct = distinct (model, recipe) pairs")
-    common.proof_side(ctx, THEOREMS, modules=["QProps.C03", "QProps.C03b"])
+    common.proof_side(ctx, THEOREMS, modules=["QProps.C03", "QProps.C03b", "QProps.C03c"])
     drv = common.Driver()
 
     def per_case(case, res):
